@@ -1,6 +1,7 @@
 import Gzx.Util
 import Gzx.Ref.DM
 import Gzx.Model.DMEncoder
+import Gzx.Model.DMWriter
 import Gzx.Model.DMDecoder
 namespace Gzx.Driver.C08
 open Gzx
@@ -89,12 +90,7 @@ def handle : List String → String
     | _, _ => "bad-op"
   | ["mfull", i, hex] =>
     match (parseNat? i).bind (fun i => DMEnc.symbols[i]?), parseHex? hex with
-    | some s, some d =>
-      match DMEnc.encodeECC200 factorSets factors d s with
-      | .error e => showR (fun (_ : Unit) => "") (.error e)
-      | .ok cw =>
-        let m := DMRef.mappingBits s.symbolDataHeight s.symbolDataWidth cw
-        showR showRows (DMEnc.encodeLowLevel s (fun x y => m.getD (y * s.symbolDataWidth + x) false))
+    | some s, some d => showR showRows (DMEnc.encodeSymbol factorSets factors d s)
     | _, _ => "bad-op"
   | ["full", i, hex] =>
     match (parseNat? i).bind (fun i => DMRef.symbols[i]?), parseHex? hex with
